@@ -10,7 +10,7 @@ import ast
 import re
 from fractions import Fraction
 
-from ..core.astutil import u, call_name, const, iter_stmts, index_elts, dot_args
+from ..core.astutil import u, call_name, const, iter_stmts, index_elts, dot_args, stable_text
 from ..core.index import FuncInfo, ClassInfo
 
 POLY = "poly"
@@ -69,7 +69,7 @@ class Mismatch:
         self.func, self.node, self.what, self.left, self.right = func, node, what, left, right
 
     def key(self):
-        return "%s|%s" % (self.func.key, u(self.node))
+        return "%s|%s" % (self.func.key, stable_text(self.node, self.func.node))
 
 
 def _is_deg(x):
